@@ -139,12 +139,11 @@ package yubiattest
 //@   ensures [no-serial-is-an-error] forall(j, 0 <= j && j < len(cert.Extensions), !isSerialExt(cert, j)) ==> err != nil
 //@   ensures [short-extension-is-an-error] exists(j, 0 <= j && j < len(cert.Extensions), isSerialExt(cert, j) && len(cert.Extensions[j].Value) < 2) ==> err != nil
 //@   ensures [serial-present] err == nil ==> exists(j, 0 <= j && j < len(cert.Extensions), isSerialExt(cert, j))
-//@   ensures [last-serial-length] err == nil ==> forall(j, 0 <= j && j < len(cert.Extensions) && isSerialExt(cert, j) &&
-//@     forall(k, j < k && k < len(cert.Extensions), !isSerialExt(cert, k)),
-//@     (len(cert.Extensions[j].Value) == 5 || len(cert.Extensions[j].Value) == 6))
 //@   ensures [eight-characters] err == nil ==> len(modhex) == 8
-//@   ensures [last-serial-decides] err == nil ==> forall(j, 0 <= j && j < len(cert.Extensions) && isSerialExt(cert, j) &&
-//@     forall(k, j < k && k < len(cert.Extensions), !isSerialExt(cert, k)),
+//@   # the last serial extension (the one no other serial extension follows; it is unique) has 3 or 4 data bytes and decides every character
+//@   ensures [last-serial-decides] err == nil ==> exists(j, 0 <= j && j < len(cert.Extensions), isSerialExt(cert, j) &&
+//@     forall(k, j < k && k < len(cert.Extensions), !isSerialExt(cert, k)) &&
+//@     (len(cert.Extensions[j].Value) == 5 || len(cert.Extensions[j].Value) == 6) &&
 //@     forall(i, 0 <= i && i < 8, modhex[i] == mhAt(elems(cert.Extensions[j].Value), off(cert.Extensions[j].Value) + 2, len(cert.Extensions[j].Value) - 2, i)))
 //@   ensures [wrong-length-is-an-error] forall(j, 0 <= j && j < len(cert.Extensions), isSerialExt(cert, j) ==>
 //@     !(len(cert.Extensions[j].Value) == 5 || len(cert.Extensions[j].Value) == 6)) ==> err != nil
